@@ -335,6 +335,10 @@ func (cache *dirCache) markDir(path string, size uint64) {
 	defer cache.mutex.Unlock()
 	cache.added[path] = size
 	cache.added[path+"="] = size
+	if cache.Suffix != "" {
+		// The in-progress name of a compressed entry is <key>=.tar.gz, not <key>.tar.gz=
+		cache.added[strings.TrimSuffix(path, cache.Suffix)+"="+cache.Suffix] = size
+	}
 }
 
 // isMarked returns true if a directory has previously been passed to markDir.
